@@ -44,6 +44,7 @@ Play(p, texts, i) ==
        IF ms = {} THEN <<p>>
        ELSE <<p>> \o Play(Apply(p, CHOOSE x \in ms : TRUE), texts, i + 1)
 
+NoReply == "(no reply)"
 PvTexts(legal) == {MoveText(m) : m \in legal} \cup {MoveText(<<m[1], m[2], 0>>) : m \in legal}
 SRank(i) == ScoreRank(i.kind, i.val)
 Seen(i) == <<i.depth, i.nodes, i.kind, i.val, i.pv[1]>>
@@ -140,7 +141,7 @@ BestFails(e) ==
    THEN LET old == memo[g.probe] IN
         IF ~g.timed
         THEN (IF old.move # e.move THEN {<<"C16", "reply-depends-on-history", D(<<s.cmd, g.line, old.move, e.move>>)>>} ELSE {})
-        ELSE (IF ~PrefixRelated(old.infos, [j \in 1..Len(g.infos) |-> Seen(g.infos[j])])
+        ELSE (IF old.move = NoReply \/ ~PrefixRelated(old.infos, [j \in 1..Len(g.infos) |-> Seen(g.infos[j])])
               THEN {<<"C16", "improvements-depend-on-history", D(<<s.cmd, g.line>>)>>} ELSE {})
    ELSE {})
 
@@ -185,9 +186,13 @@ OutStep(e) ==
     [] e.k = "readyok" -> [s EXCEPT !.ready = IF @ > 0 THEN @ - 1 ELSE 0]
     [] OTHER -> s
 
+\* (a probe that is never answered is remembered as such: "no reply" is a reply that must not depend on the history either)
 MemoStep(e) ==
   IF e.ev = "out" /\ e.k = "bestmove" /\ s.go.active /\ s.go.answers = 0 /\ s.go.probe # "" /\ s.go.probe \notin DOMAIN memo
   THEN memo @@ (s.go.probe :> [move |-> e.move, infos |-> [j \in 1..Len(s.go.infos) |-> Seen(s.go.infos[j])]])
+  ELSE IF e.ev \in {"timeout", "closed"} /\ e.waiting = "bestmove" /\ s.go.active /\ s.go.answers = 0 /\ s.go.probe # "" /\ s.go.probe \notin DOMAIN memo
+          /\ ~s.skip
+  THEN memo @@ (s.go.probe :> [move |-> NoReply, infos |-> <<>>])
   ELSE memo
 
 (***************************************************************************)
@@ -196,6 +201,9 @@ MemoStep(e) ==
 TimeoutFails(e) ==
   IF e.waiting = "bestmove" THEN {<<"C08", "go-never-answered", D(<<s.cmd, IF s.go.active THEN s.go.line ELSE "">>)>>,
                                   <<"C03", "go-without-bestmove", D(<<s.cmd, IF s.go.active THEN s.go.line ELSE "">>)>>}
+                                 \* C16: the same request was answered when it was asked of an engine with another history
+                                 \cup (IF s.go.active /\ s.go.probe # "" /\ s.go.probe \in DOMAIN memo /\ memo[s.go.probe].move # NoReply
+                                       THEN {<<"C16", "reply-depends-on-history", D(<<s.cmd, s.go.line, memo[s.go.probe].move, NoReply>>)>>} ELSE {})
   ELSE IF e.waiting = "readyok" THEN {<<"C17", "isready-never-answered", D(s.cmd)>>}
   ELSE {<<"C17", "handshake", "">>}
 
